@@ -301,17 +301,8 @@ def judgeAccepted (env : Env) (s : State) (c : Call) (r : Response) (s' : State)
     -- C09 "over the bid's life the fees add up": what leaves the bid's quote + fee holdings on
     -- this match (all of them when the match closes it) is what the contract pays out in the
     -- quote denomination – fee to the fee account, fee share returned with a price improvement
-    -- (consequence of `C02_settled` and `C09_final_match`; evaluated where the quote
-    -- denomination is not also a base being delivered)
-    let v := match loadBid s b, s.asks.get? a with
-      | some bb, some aa =>
-        if !exact || bb.quote.denom == s.info.baseDenom || bb.quote.denom == aa.base then v else
-        let after : Nat × Nat := match loadBid s' b with
-          | some b' => (b'.remQuote, b'.remFee)
-          | none => (0, 0)
-        v.check "C09" "C09_feeLeavesWithFill"
-          (debit ct r.msgs ct bb.quote.denom == (bb.remQuote - after.1) + (bb.remFee - after.2))
-      | _, _ => v
+    -- (theorem `C09_fee_leaves`)
+    let v := if exact then v.check "C09" "C09_feeLeavesWithFill" (C09_feeLeavesOK ct s c a b r s') else v
     let v := v.check "C17" "C17_feesPaidOK" (C17_feesPaidOK ct s b r)
     -- C09: the fees charged on a fill really go to the fee accounts (same predicate, theorem
     -- `C17_fees_paid`, no hypothesis)
